@@ -70,10 +70,13 @@ def generate(seed, tier):
             ops.append({"op": "load", "m": mi, "path": r.choice(PATHS)})
         elif m < 0.86:
             # the location may also be a file object: save into / load from an in-memory file
-            ops.append({"op": "fobj_roundtrip", "m": mi, "dst": r.choice([0, 1, 2]), "md": r.randrange(0, 3)})
+            ops.append({"op": "fobj_roundtrip", "m": mi, "dst": r.choice([0, 1, 2]), "md": r.randrange(0, 3), "lead": r.choice([0, 0, 1, 2]), "trail": 0})
         else:
             ops.append({"op": "autoload", "path": r.choice(PATHS)})
-    return {"property": PROP, "run_seed": seed, "sub": P.s64(r), "config": {"models": models, "md_slots": md_slots}, "ops": ops}
+    config = {"models": models, "md_slots": md_slots}
+    if not faulty and r.random() < 0.15:
+        config["real_disk"] = True  # fault-free stratum on a real temporary directory
+    return {"property": PROP, "run_seed": seed, "sub": P.s64(r), "config": config, "ops": ops}
 
 
 def _make_md(kind, torch):
@@ -96,14 +99,14 @@ def execute(plan):
     import numpy as np
     import torch
 
-    from qsim.seams.disk import SimDisk
+    from qsim.seams.disk import RealDisk, SimDisk
     from qsim.seams.rng import RngSeam
     from qsim.world import build_data, build_state, randomise, state_class
 
     run = Run(plan)
     cfg = plan["config"]
     rng = RngSeam(run)
-    disk = SimDisk(run)
+    disk = RealDisk(run) if cfg.get("real_disk") else SimDisk(run)
 
     def deq(a, b):
         if isinstance(a, torch.Tensor) or isinstance(b, torch.Tensor):
@@ -163,7 +166,7 @@ def execute(plan):
     def sig(c):
         return (c["type"], c["nv"], c["nh"], c.get("na"))
 
-    trace = [[sig(c) for c in cfg["models"]], list(cfg["md_slots"])]
+    trace = [[sig(c) for c in cfg["models"]], list(cfg["md_slots"]), bool(cfg.get("real_disk"))]
     compared = 0
     files = {}  # path -> {"status": "acked", "snap", "md", "sig"} | {"status": "indeterminate"}
 
@@ -374,8 +377,15 @@ def execute(plan):
                 pre = snap(st)
                 md_pre = copy.deepcopy(md)
                 buf = _io.BytesIO()
+                # several checkpoints may be written back to back into one stream; the caller seeks to the one it wants
+                lead = op.get("lead", 0)
                 try:
+                    for _ in range(lead):
+                        models[(op["m"] + 1) % len(models)].save(buf)
+                    offset = buf.tell()
                     st.save(buf, md)
+                    for _ in range(op.get("trail", 0)):
+                        models[(op["m"] + 2) % len(models)].save(buf)
                 except Exception as exc:  # noqa: BLE001
                     run.lib_exception(exc, "save to a file object", md_kind=md_kind, type=pre["type"])
                     continue
@@ -384,7 +394,7 @@ def execute(plan):
                     run.violate("11-side-effect-metadata", f"save to a file object modified the caller's metadata (kind {md_kind})", md_kind=md_kind, type=pre["type"])
                 dst = models[op["dst"]]
                 if sig(cfg["models"][op["dst"]]) == sig(cfg["models"][op["m"]]):
-                    buf.seek(0)
+                    buf.seek(offset)
                     try:
                         dst.load(buf)
                     except Exception as exc:  # noqa: BLE001
@@ -414,6 +424,8 @@ def execute(plan):
             prev = plan["ops"][-1]
             bystanders_unchanged({prev.get("m"), prev.get("dst")} - {None}, f"op {len(plan['ops']) - 1} ({prev['op']})")
     run.trace = trace
+    if cfg.get("real_disk"):
+        run.probes["real_disk_runs"] += 1
     run.nontrivial = compared > 0 or sum(v for k, v in run.faults.items() if k in ("enospc", "eio", "crash_write")) > 0
     run.sim["ops"] += len(plan["ops"])
     run.sim["disk_writes"] += disk.total_writes
